@@ -42,6 +42,9 @@ type cfg struct {
 	limit  uint64            // max-iterations (0: none)
 	twice  bool              // the same stages worker is run a second time (a second run with the same trigger)
 	preset map[string]string // already in the process environment when the run starts (names of the first stage's parameters)
+	// the scenario's bodies overwrite the value of every parameter they find set (a token they refresh);
+	// the oracle then compares names only while stages run - and still nothing may remain afterwards
+	overwrite bool
 }
 
 func envNow() string {
@@ -65,6 +68,14 @@ func want(params map[string]string) string {
 	return strings.Join(p, ",")
 }
 
+func namesOnly(env string) string {
+	var p []string
+	for _, kv := range strings.Split(env, ",") {
+		p = append(p, strings.SplitN(kv, "=", 2)[0])
+	}
+	return strings.Join(p, ",")
+}
+
 func scenario(c cfg) vrt.Scenario {
 	body := func() {
 		for _, k := range allKeys {
@@ -79,6 +90,13 @@ func scenario(c cfg) vrt.Scenario {
 		cur := -1 // index of the stage whose rate function / body is being evaluated (for the body's log)
 		sc := &scenarios.Scenario{Name: "s", RunFn: func(t *f1testing.T) {
 			vrt.LogQuiet(fmt.Sprintf("body %s", envNow()))
+			if c.overwrite {
+				for _, k := range allKeys {
+					if _, ok := os.LookupEnv(k); ok {
+						os.Setenv(k, "refreshed")
+					}
+				}
+			}
 			vtime.Sleep(20 * time.Millisecond)
 		}}
 		_ = cur
@@ -162,7 +180,11 @@ func scenario(c cfg) vrt.Scenario {
 				if i > last {
 					last = i
 				}
-				if w := want(c.stages[i].params); env != w {
+				w := want(c.stages[i].params)
+				if c.overwrite {
+					env, w = namesOnly(env), namesOnly(w)
+				}
+				if env != w {
 					o.Fail("C15/stage-env", "wrong-parameters", fmt.Sprintf("stage %d evaluated its rate with environment {%s}, its parameters are {%s}", i, env, w))
 				}
 			case "worker-returned":
@@ -189,20 +211,21 @@ func scenariosFor(tier string) []vrt.Scenario {
 	ab1 := map[string]string{"VERIF_A": "x", "VERIF_B": "x"}
 	a2 := map[string]string{"VERIF_A": "y", "VERIF_C": "y"}
 	cfgs := []cfg{
-		{"distinct-keys", []stageCfg{{0, a}, {0, b}}, -1, 0, false, nil},
-		{"empty-parameter-value", []stageCfg{{0, a}, {0, map[string]string{"VERIF_A": "", "VERIF_B": "2"}}, {0, map[string]string{"VERIF_C": ""}}}, -1, 0, false, nil},
-		{"inherited-parameters-shared-by-stages", []stageCfg{{0, ab1}, {0, a2}, {0, ab1}, {1, ab1}, {0, ab1}}, -1, 0, false, nil},
-		{"two-runs-of-one-trigger", []stageCfg{{0, a}, {0, ab1}}, -1, 0, true, nil},
-		{"two-runs-of-one-trigger/first-cut-short", []stageCfg{{0, a}, {0, ab1}}, 350 * time.Millisecond, 0, true, nil},
-		{"parameter-name-already-in-the-process-environment", []stageCfg{{0, ab1}, {0, b}}, -1, 0, false, map[string]string{"VERIF_A": "outer", "VERIF_B": ""}},
-		{"overlapping-keys", []stageCfg{{0, ab1}, {0, a2}}, -1, 0, false, nil},
-		{"overlapping-keys-users-first", []stageCfg{{1, ab1}, {0, a2}}, -1, 0, false, nil},
-		{"three-stages", []stageCfg{{0, a}, {1, ab1}, {0, a2}}, -1, 0, false, nil},
-		{"cancel-in-first-stage", []stageCfg{{0, ab1}, {0, a2}}, 150 * time.Millisecond, 0, false, nil},
-		{"cancel-at-stage-boundary", []stageCfg{{0, ab1}, {0, a2}}, 300 * time.Millisecond, 0, false, nil},
-		{"no-parameters", []stageCfg{{0, nil}, {0, a}}, -1, 0, false, nil},
-		{"limit-reached-in-first-stage", []stageCfg{{0, a}, {0, ab1}, {0, a2}}, -1, 2, false, nil},
-		{"limit-reached-in-users-stage", []stageCfg{{1, ab1}, {0, a2}}, -1, 1, false, nil},
+		{"distinct-keys", []stageCfg{{0, a}, {0, b}}, -1, 0, false, nil, false},
+		{"empty-parameter-value", []stageCfg{{0, a}, {0, map[string]string{"VERIF_A": "", "VERIF_B": "2"}}, {0, map[string]string{"VERIF_C": ""}}}, -1, 0, false, nil, false},
+		{"inherited-parameters-shared-by-stages", []stageCfg{{0, ab1}, {0, a2}, {0, ab1}, {1, ab1}, {0, ab1}}, -1, 0, false, nil, false},
+		{"two-runs-of-one-trigger", []stageCfg{{0, a}, {0, ab1}}, -1, 0, true, nil, false},
+		{"two-runs-of-one-trigger/first-cut-short", []stageCfg{{0, a}, {0, ab1}}, 350 * time.Millisecond, 0, true, nil, false},
+		{"parameter-name-already-in-the-process-environment", []stageCfg{{0, ab1}, {0, b}}, -1, 0, false, map[string]string{"VERIF_A": "outer", "VERIF_B": ""}, false},
+		{"bodies-overwrite-their-parameters", []stageCfg{{0, ab1}, {1, a2}, {0, b}}, -1, 0, false, nil, true},
+		{"overlapping-keys", []stageCfg{{0, ab1}, {0, a2}}, -1, 0, false, nil, false},
+		{"overlapping-keys-users-first", []stageCfg{{1, ab1}, {0, a2}}, -1, 0, false, nil, false},
+		{"three-stages", []stageCfg{{0, a}, {1, ab1}, {0, a2}}, -1, 0, false, nil, false},
+		{"cancel-in-first-stage", []stageCfg{{0, ab1}, {0, a2}}, 150 * time.Millisecond, 0, false, nil, false},
+		{"cancel-at-stage-boundary", []stageCfg{{0, ab1}, {0, a2}}, 300 * time.Millisecond, 0, false, nil, false},
+		{"no-parameters", []stageCfg{{0, nil}, {0, a}}, -1, 0, false, nil, false},
+		{"limit-reached-in-first-stage", []stageCfg{{0, a}, {0, ab1}, {0, a2}}, -1, 2, false, nil, false},
+		{"limit-reached-in-users-stage", []stageCfg{{1, ab1}, {0, a2}}, -1, 1, false, nil, false},
 	}
 	var out []vrt.Scenario
 	out = append(out, scenario(cfgs[0]).WithPlainPoints(1), scenario(cfgs[2]).WithPlainPoints(1))
